@@ -30,6 +30,8 @@ def _fmt(x):
     if isinstance(x, float):
         return repr(x)
     if isinstance(x, (list, tuple)):
+        if len(x) == 1:
+            return _fmt(x[0]) + ','      # a one-element list needs the comma
         return ', '.join(_fmt(v) for v in x)
     return str(x)
 
